@@ -22,6 +22,7 @@ RULE += ("; round 5: charged-residue counts 511..514, 769, 1023..1025; objects r
 RULE += ("; round 6: charged patches joined by charge-free linkers of 99-260 residues")
 RULE += ("; round 7: copies from get_shuffled_sequence with half / a quarter / every other position frozen (140-200 residues); texts typed with one residue type in lower case; thorough tier: a 4202-residue chain with charges more than 4096 apart")
 RULE += ("; round 8: objects built from files whose path, size and time stamps repeat; block / cluster children in the salt")
+RULE += ("; round 9: exactly two charged residues at every length 5-260 (thorough 700); children of pair swaps of parents that have answered get_SCD; degenerate kappa_X groupings in the salt")
 EXHAUSTIVE = {"quick": False, "thorough": False}
 EXHAUSTIVE_NOTE = {"quick": "all patterns of length <= 10 (88,572)", "thorough": "all patterns of length <= 12 (797,160)"}
 ASSUMPTIONS = [
